@@ -146,14 +146,24 @@ def classify_units(obs, off, style, epoch, truth):
         obs.cls('units:year-before-1900')
 
 
-def units_mech(off, year, result=None, truth=None, period=None):
+def offset_defect_symptom(exc, off):
+    """Mechanism predicate of 'time-offset-format': the composed offset is one the f'{h:+d}:{m:02d}' rendering of
+    divmod(minutes, 60) gets wrong, AND the call ended in the function's own self-check error naming exactly that
+    rendering as the new offset."""
+    if not tu.offset_format_defect_applies(off) or not isinstance(exc, ValueError):
+        return False
+    text = str(exc)
+    return 'does not resolve to the same reference time' in text and text.endswith(" %+d:%02d'" % divmod(off, 60))
+
+
+def units_mech(off, year, result=None, truth=None, period=None, exc=None):
     """Mechanism key of a units violation (a predicate on the composed input and on the symptom)."""
+    if exc is not None:
+        return 'time-offset-format' if offset_defect_symptom(exc, off) else 'time-units-format'
     if isinstance(result, str) and year < 1000 and re.match('^' + re.escape(period) + UNPADDED_YEAR_FORM, result):
         parsed = contracts.parse_time_units(result)
         if parsed == (period, truth):
             return 'year-not-zero-padded'       # right instant, right offset: only the YYYY field is short
-    if tu.offset_format_defect_applies(off):
-        return 'time-offset-format'
     return 'time-units-format'
 
 
@@ -185,7 +195,7 @@ def units_block(obs, spec, off, style, combos, state):
             fn = getattr(fn, '_vmon_orig', fn)
         args = (units,) if calendar is None else (units, calendar)
         result = obs.call('format_time_units_for_ems(%r)' % (units,), fn, *args,
-                          mech=lambda exc: units_mech(off, year))
+                          mech=lambda exc: units_mech(off, year, exc=exc))
         if state['samples'] < 2 and off in (-570, 345) and style in ('T-sec-colon', 'sp-nosec-colon'):
             state['samples'] += 1
             obs.sample({'units': units, 'calendar': calendar, 'composed reference instant (s since 1970 UTC)': truth,
@@ -215,8 +225,7 @@ def source_has_fill(variable):
 
 def save_mech(off, has_time):
     def mech(exc):
-        if has_time and isinstance(exc, ValueError) and 'does not resolve to the same reference time' in str(exc) \
-                and tu.offset_format_defect_applies(off):
+        if has_time and offset_defect_symptom(exc, off):
             return 'time-offset-format'
         if not has_time:
             return 'to-netcdf-without-time'
